@@ -455,12 +455,7 @@ func (z *ZodIntegerTyped[T, R]) Refine(
 		return fn(converted)
 	}
 
-	sp := utils.NormalizeParams(params...)
-	var msg any
-	if sp.Error != nil {
-		msg = sp.Error
-	}
-	return z.withCheck(checks.NewCustom[any](wrapper, msg))
+	return z.withCheck(checks.NewCustom[any](wrapper, utils.RefineParams(params...)))
 }
 
 // And creates an intersection with another schema.
